@@ -15,6 +15,7 @@ import (
 
 type Frame struct {
 	inDevirt   bool
+	cutArgs    []*Val
 	fn         *ssa.Function
 	regs       map[ssa.Value]*Val
 	cellOf     map[*ssa.Alloc]*Cell
